@@ -108,6 +108,12 @@ pub fn on_point(id: &'static str, obj: usize, arg: usize) {
     g.log.push(ev);
     return;
   }
+  if id == "replace.index.locked" {
+    // the mutex of the sorted index is ours until we are released from here
+    let ev = decode(&mut g, id, obj, arg);
+    let key = (ev["obj"].as_u64().unwrap_or(0) as usize, usize::MAX);
+    g.held.insert(key, tid);
+  }
   if matches!(id, "cached.stream.occupied" | "cached.stream.vacant") {
     // the entry lock of this shard is ours from here to `released!`
     let ev = decode(&mut g, id, obj, arg);
@@ -124,6 +130,12 @@ pub fn on_point(id: &'static str, obj: usize, arg: usize) {
   }
   g.turn = None;
   g.status[tid] = Status::Running;
+  if id == "replace.index.locked" {
+    let o = g.objs.get(&obj).copied().unwrap_or(0);
+    if g.held.get(&(o, usize::MAX)) == Some(&tid) {
+      g.held.remove(&(o, usize::MAX));
+    }
+  }
   let mut ev = decode(&mut g, id, obj, arg);
   ev["op"] = json!("ev");
   ev["t"] = json!(tid);
@@ -177,6 +189,19 @@ fn would_block(g: &Inner, tid: usize) -> bool {
         }
       }
     }
+    // the index mutex of a ReplaceSource: its readers and its sorter need it,
+    // and so does Clone (which has no point of its own: the thread waits at
+    // op.start with arg 1 when its next call is a clone)
+    if matches!(*id, "replace.read_index" | "replace.sort.store_index") {
+      if let Some(o) = g.objs.get(obj) {
+        if let Some(h) = g.held.get(&(*o, usize::MAX)) {
+          return *h != tid;
+        }
+      }
+    }
+    if *id == "op.start" && *arg == 1 {
+      return g.held.iter().any(|((_, s), h)| *s == usize::MAX && *h != tid);
+    }
   }
   false
 }
@@ -216,7 +241,7 @@ pub fn run_program(pid: u64, prog: &Value) -> Vec<Value> {
       TID.with(|t| t.set(Some(tid)));
       let mut m = Machine::with_shared(shared);
       for op in ops {
-        on_point("op.start", 0, 0);
+        on_point("op.start", 0, usize::from(op["op"].as_str() == Some("clone")));
         let rec = m.step(pid, &op);
         log_ret(tid, rec);
       }
